@@ -157,6 +157,33 @@ def run(ctx):
         if not ok:
             bad("production-comparison figure does not carry simulated recovery, cumulative production over M and frac-face pressure against time over tau",
                 dict(days=nd, tau=tau, M=M, p_initial=p0), "mismatch")
+    # ---------------- the same figure WITHOUT filtering, on records whose Days column is not 0, 1, 2, ... (starting at day 1,
+    # every other day, monthly): the time axis is Days / tau and the simulation runs on it
+    for k in range(3 if ctx.quick else 9):
+        nd = int(rng.integers(8, 16))
+        days = [np.arange(1, nd + 1), np.arange(0, 2 * nd, 2), np.cumsum(rng.choice([28, 30, 31], nd))][k % 3].astype(float)
+        gas = rng.uniform(1, 50, nd)
+        pres = np.sort(rng.uniform(800, 3000, nd))[::-1].copy()
+        prod = pd.DataFrame({"Days": days, "Gas": gas, "Pressure": pres})
+        par = Parameters()
+        tau, M, p0 = float(rng.uniform(50, 400)), float(rng.uniform(500, 5000)), float(rng.uniform(4000, 9000))
+        par.add("tau", value=tau)
+        par.add("M", value=M)
+        par.add("p_initial", value=p0)
+        with warnings.catch_warnings():
+            warnings.simplefilter("ignore")
+            fig, (ax1, ax2) = plot_production_comparison(prod, pvt, par, filter_zero_prod_days=False)
+            l1, l2 = line_data(ax1), line_data(ax2)
+            plt.close(fig)
+        tt = days / tau
+        ref = rescorr.run_impl(dict(kind="single", table=tbp, pi=p0, pf=float(pres[0]), nx=80, times=tt, sched=list(pres)))
+        ev += 1
+        ok = (len(l1) == 2 and len(l2) == 1 and np.allclose(l1[0][0], tt) and np.allclose(l1[0][1], ref["rf"], rtol=1e-9)
+              and np.allclose(l1[1][0], tt) and np.allclose(l1[1][1], np.cumsum(gas) / M) and np.allclose(l2[0][1], pres) and np.allclose(l2[0][0], tt))
+        if not ok:
+            bad("production-comparison figure (no filtering) does not carry simulated recovery, cumulative production over M and frac-face pressure "
+                "against Days over tau", dict(days=[float(x) for x in days[:5]], tau=tau, M=M, p_initial=p0, filter_zero_prod_days=False),
+                dict(x_drawn=[float(x) for x in (l1[0][0][:4] if l1 else [])], x_expected=[float(x) for x in tt[:4]]))
     # ---------------- the registered scale's transforms on the implementation
     import matplotlib.scale as mscale
     fig, ax = plt.subplots()
